@@ -6,14 +6,131 @@ package main
 
 import (
 	"bytes"
+	"context"
 	"encoding/hex"
 	"fmt"
 	"math/big"
+	"os"
 	"strings"
 
 	"cosmossdk.io/math"
 	sdk "github.com/cosmos/cosmos-sdk/types"
+
+	ophosttypes "github.com/initia-labs/OPinit/x/ophost/types"
 )
+
+// ---- executions that are not part of the modelled op list ----
+// discards[i]: ops executed on a state branch that is thrown away (simulation / failed tx) right
+// before op i; reenter[i]: op i (a finalization) runs with a bank send restriction armed that
+// submits the very same message once more from inside the payout transfer; nested[i]: what the
+// nested submission returned.  The model ignores all of this: a discarded execution is a no-op and
+// a re-entrant duplicate must be rejected without effect.
+type l1Side struct {
+	discards map[int][][]L1Op // groups; each group runs on one branch that is thrown away
+	reenter  map[int]bool
+	nested   map[int]string
+}
+
+var l1Sides = map[*L1Case]*l1Side{}
+
+func sideOf(c *L1Case) *l1Side {
+	s := l1Sides[c]
+	if s == nil {
+		s = &l1Side{discards: map[int][][]L1Op{}, reenter: map[int]bool{}, nested: map[int]string{}}
+		l1Sides[c] = s
+	}
+	return s
+}
+
+type reentryState struct {
+	armed   bool
+	msg     *ophosttypes.MsgFinalizeTokenWithdrawal
+	escrow  sdk.AccAddress
+	verdict string
+}
+
+var reentries = map[*L1Env]*reentryState{}
+
+// installReentry appends a send restriction to the real bank keeper; unarmed it does nothing
+func installReentry(e *L1Env) {
+	st := &reentryState{}
+	reentries[e] = st
+	e.BK.AppendSendRestriction(func(ctx context.Context, from, to sdk.AccAddress, amt sdk.Coins) (sdk.AccAddress, error) {
+		if st.armed && from.Equals(st.escrow) {
+			st.armed = false
+			if _, err := e.Msg.FinalizeTokenWithdrawal(ctx, st.msg); err == nil {
+				st.verdict = "accepted"
+			} else {
+				st.verdict = "rejected"
+			}
+		}
+		return to, nil
+	})
+}
+
+func finalizeMsgOf(o L1Op) *ophosttypes.MsgFinalizeTokenWithdrawal {
+	return &ophosttypes.MsgFinalizeTokenWithdrawal{Sender: o.Sender, BridgeId: o.Bridge, OutputIndex: o.Idx,
+		WithdrawalProofs: o.Proofs, From: o.From, To: o.To, Sequence: o.Seq, Amount: coinOf(o.Denom, o.Amt), Version: o.Version, StorageRoot: o.SRoot, LastBlockHash: o.BHash}
+}
+
+// execWith runs op i of a case with its side executions: discarded pre-executions, armed re-entry
+func execWith(c *L1Case, side *l1Side, i int, o L1Op, do func(L1Op) ExecResult) ExecResult {
+	e := c.Env
+	for _, g := range side.discards[i] {
+		runDiscarded(e, g)
+	}
+	st := reentries[e]
+	if side.reenter[i] && st != nil {
+		st.armed, st.msg, st.escrow, st.verdict = true, finalizeMsgOf(o), ophosttypes.BridgeAddress(o.Bridge), "not-reached"
+	}
+	r := do(o)
+	if side.reenter[i] && st != nil {
+		st.armed = false
+		side.nested[i] = st.verdict
+	}
+	return r
+}
+
+// Discarded executes ops on a branch of the current state and throws the branch away
+func (sc *L1Scenario) Discarded(ops ...L1Op) {
+	side := sideOf(sc.Case)
+	i := len(sc.Case.Ops)
+	var g []L1Op
+	for _, o := range ops {
+		g = append(g, sc.op(o))
+	}
+	side.discards[i] = append(side.discards[i], g)
+	// replayed by execWith in the observing pass; run now as well so that generation sees whatever
+	// in-memory residue the discarded execution leaves
+	runDiscarded(sc.Env, g)
+}
+
+func runDiscarded(e *L1Env, g []L1Op) {
+	saved := e.Ctx
+	branch, _ := saved.CacheContext()
+	e.Ctx = branch
+	for _, d := range g {
+		res := e.L1Exec(d)
+		if os.Getenv("VERIF_DEBUG") != "" {
+			fmt.Println("discarded", d.Kind, d.Bridge, res.OK, res.Err)
+		}
+	}
+	e.Ctx = saved // the branch is never written back
+}
+
+// ClaimReentrant submits leaf i of pt with the re-entrancy restriction armed
+func (sc *L1Scenario) ClaimReentrant(pt *ProposedTree, i int, bridge, idx uint64, submitter string) ExecResult {
+	op := sc.Claim(pt, i, submitter)
+	op.Bridge, op.Idx = bridge, idx
+	side := sideOf(sc.Case)
+	k := len(sc.Case.Ops)
+	side.reenter[k] = true
+	saved := side.discards[k]
+	side.discards[k] = nil // already executed by Discarded during generation
+	r := execWith(sc.Case, side, k, op, sc.Case.Do)
+	side.discards[k] = saved
+	return r
+}
 
 // ---- typed view of one L1 observation ----
 type l1View struct{ v []Ov }
@@ -196,6 +313,7 @@ var curTrees []*ProposedTree
 func runL1TwicePrep(seed uint64, id int, prep func(sc *L1Scenario), build L1Builder, rep *Report) *L1Case {
 	mk := func() *L1Scenario {
 		sc := NewL1Scenario(seed, id, nil)
+		installReentry(sc.Env)
 		if prep != nil {
 			prep(sc)
 			sc.Case.Bals = nil
@@ -211,16 +329,19 @@ func runL1TwicePrep(seed uint64, id int, prep func(sc *L1Scenario), build L1Buil
 	sc2.Case.Parse = sc.Case.Parse
 	sc2.Case.Bals = nil
 	sc2.Case.Snapshot() // with the final tracked account list
+	side1, side2 := sideOf(sc.Case), sideOf(sc2.Case)
+	side2.discards, side2.reenter = side1.discards, side1.reenter
 	for i, o := range sc.Case.Ops {
-		r := sc2.Case.DoObs(o)
+		r := execWith(sc2.Case, side2, i, o, sc2.Case.DoObs)
 		if r.OK != sc.Case.Results[i].OK {
 			rep.Violate(Violation{Case: id, Step: i, What: "the same history gave different verdicts on two fresh instances", Sig: "nondeterministic-verdict", Ops: l1OpsHuman(sc.Case.Ops[:i+1])})
 		}
 	}
 	curTrees = sc.Trees
+	delete(l1Sides, sc.Case)
+	delete(reentries, sc.Env)
 	return sc2.Case
 }
-
 
 // whalePrep gives user 7 more than 2^66 of every denom, so that an escrow can hold more than 2^64
 func whalePrep(sc *L1Scenario) {
@@ -347,6 +468,8 @@ func runMoneyStream(cfg MoneyStream, seed uint64, tier string, outdir string) *R
 		for _, m := range cfg.Monitors {
 			m(rep, c)
 		}
+		delete(l1Sides, c)
+		delete(reentries, c.Env)
 		rep.Ops += len(c.Ops)
 		rep.CountCase(strings.Join(l1OpsHuman(c.Ops), "\n"), len(okKinds) >= 2 && len(errKinds) >= 1 && okKinds[cfg.mainKind()] && errKinds[cfg.mainKind()])
 		if len(rep.Samples) < 2 {
@@ -399,5 +522,92 @@ func (cfg MoneyStream) mainKind() string {
 
 // violation helper: the failing history is the op list up to and including step i
 func l1Violate(rep *Report, c *L1Case, i int, sig, what string) {
-	rep.Violate(Violation{Case: c.ID, Step: i, What: what, Sig: sig, Ops: l1OpsHuman(c.Ops[:i+1])})
+	v := Violation{Case: c.ID, Step: i, What: what, Sig: sig, Ops: l1OpsHuman(c.Ops[:i+1])}
+	if side := l1Sides[c]; side != nil {
+		// executions that are not part of the op list: needed to reproduce the history
+		extra := map[string]interface{}{}
+		for k := 0; k <= i; k++ {
+			for _, g := range side.discards[k] {
+				extra[fmt.Sprintf("before step %d, executed on a discarded state branch", k)] = l1OpsHuman(g)
+			}
+			if side.reenter[k] {
+				extra[fmt.Sprintf("step %d", k)] = "executed with a bank send restriction that submits the same message once more from inside the payout transfer; nested verdict: " + side.nested[k]
+			}
+		}
+		if len(extra) > 0 {
+			v.Detail = extra
+		}
+	}
+	rep.Violate(v)
+}
+
+// reentryMonitor: a finalization submitted again from inside its own payout transfer must be rejected
+func reentryMonitor(prop string) L1Monitor {
+	return func(rep *Report, c *L1Case) {
+		side := l1Sides[c]
+		if side == nil {
+			return
+		}
+		for i := range c.Ops {
+			if side.reenter[i] {
+				rep.Hist("reentrant-finalize:" + side.nested[i])
+				if side.nested[i] == "accepted" {
+					o := c.Ops[i]
+					l1Violate(rep, c, i, prop+":reentrant-claim-accepted", fmt.Sprintf("the same finalization (bridge %d, sequence %d, %s%s) submitted again from inside its own payout transfer was accepted", o.Bridge, o.Seq, o.Amt, o.Denom))
+				}
+			}
+		}
+	}
+}
+
+// doublePayMonitor: at most one accepted finalization per withdrawal (bridge, sequence, from,
+// recipient account, denom, amount)
+func doublePayMonitor(prop string) L1Monitor {
+	return func(rep *Report, c *L1Case) {
+		paid := map[string]int{}
+		for i, o := range c.Ops {
+			if o.Kind != "finalize" || !viewL1(c.Obs[i]).OK() {
+				continue
+			}
+			k := fmt.Sprintf("%d|%d|%s|%d|%s|%s", o.Bridge, o.Seq, o.From, c.idOf(o.To), o.Denom, o.Amt.String())
+			paid[k]++
+			if paid[k] > 1 {
+				l1Violate(rep, c, i, prop+":paid-twice", fmt.Sprintf("withdrawal (bridge %d, sequence %d, %s -> account %d, %s%s) was paid %d times (this time against output index %d)", o.Bridge, o.Seq, o.From, c.idOf(o.To), o.Amt, o.Denom, paid[k], o.Idx))
+			}
+		}
+	}
+}
+
+// longDenomPrep adds valid denoms of 119, 121, 121 and 128 characters (sharing a 119/120-character prefix)
+// to the scenario and funds every user with them
+func longDenomPrep(sc *L1Scenario) {
+	p := "u" + strings.Repeat("x", 118) // 119 characters
+	long := []string{p, p + "ab", p + "ac", p + "abcdefghi"}
+	var cs sdk.Coins
+	for _, d := range long {
+		cs = append(cs, sdk.NewInt64Coin(d, 100000))
+	}
+	cs = cs.Sort()
+	for _, u := range sc.Env.Users {
+		sc.Env.Fund(u.Addr, cs)
+	}
+	sc.Denoms = append(sc.Denoms, long...)
+	sc.Case.Track.Denoms = sc.Denoms
+}
+
+// discardStep: a creation (and a deposit into the id it would get) executed on a branch that is
+// thrown away, followed by a real deposit to that still unassigned id
+func (sc *L1Scenario) discardStep() {
+	e, r := sc.Env, sc.R
+	nb, _ := e.K.GetNextBridgeId(e.Ctx)
+	cfg := sc.NewConfig(uint64(1+r.Intn(7)), uint64(1+r.Intn(7)), sc.Periods[r.Intn(len(sc.Periods))])
+	creator := e.User(uint64(1 + r.Intn(7))).Str
+	sender := e.User(uint64(1 + r.Intn(7))).Str
+	sc.reg(sender)
+	d := sc.Denoms[r.Intn(len(sc.Denoms))]
+	dep := L1Op{Kind: "deposit", Sender: sender, Bridge: nb, To: "l2recipient", Denom: d, Amt: big.NewInt(int64(1 + r.Intn(50)))}
+	sc.Discarded(sc.Create(creator, cfg), dep)
+	if r.Chance(70) {
+		sc.do(dep) // the bridge does not exist: must be rejected
+	}
 }
